@@ -176,7 +176,11 @@ NUMBERS = (
     + [['dec', s] for s in ('254/100', '-15/10000', f"1/{10 ** 30}", '45359237/100000000',
                             '-1/8', f"{123456789012345678901234567890123456789}/1000000000",
                             '13/10', '1/16', '0/1', f"{7 * 10 ** 50}/1")]
-    + [['stddec', s] for s in ('5/4', '-1/1000', '12/1')]
+    # stdlib decimals, also with more digits than the stdlib context's 28 (seeded C18-i)
+    + [['stddec', s] for s in ('5/4', '-1/1000', '12/1',
+                               '12345678901234567890123456789/10000000000000000000',
+                               f"{2 ** 100}/1",
+                               '1000000000000000000000000000000001/1000000000000000000000')]
     + [['float', x.hex()] for x in FLOATS])
 NONNUMBERS = [['inf', '+'], ['inf', '-'], ['nan', ''], ['bytes', '1 m'], ['none', ''],
               ['list', ''], ['complex', '']]
@@ -417,6 +421,13 @@ def gen_cases(rng, tier):
         cases.append({'kind': 'fmt', 'world': w, 'u': sym, 'n': rng.choice(SHORT_NUMBERS),
                       'spec': spec})
 
+    # --- money: format(q) is str(q), large amounts included
+    #     (seeded C18-h: digit grouping in Money's default format)
+    MW = {'predefined': True, 'currencies': ['EUR', 'JPY', 'KWD']}
+    for cur in MW['currencies']:
+        for n in (['dec', '12345/10'], ['int', '-2500000/1'], ['frac', '100001/8'], ['int', '999/1'],
+                  ['dec', '1234567891/1000']):
+            cases.append({'kind': 'fmt', 'world': MW, 'u': cur, 'n': n, 'spec': []})
     # --- declaration of symbols
     for s in ['', ' ', 'ok', None, 5, 'm']:
         cases.append({'kind': 'decl', 'world': PRE, 'sym': s})
